@@ -1,6 +1,6 @@
 // faults_test.go: the fault stage between a peer's real p2p/server and the requesting node. A peer
 // has a behaviour class (the alphabet of spec/p2psync/P2PSync.tla: honest benign fork mute trunc
-// other corrupt down flaky); a class has several concrete variants, drawn from a seeded generator
+// other corrupt malformed down flaky); a class has several concrete variants, drawn from a seeded generator
 // and recorded, all with the same abstract effect (Ans in the specification).
 package p2psync
 
@@ -9,7 +9,6 @@ import (
 	"math/rand"
 	"regexp"
 	"sort"
-	"strings"
 
 	syncclass "github.com/starknet-io/starknet-p2p-specs/p2p/proto/sync/class"
 	synccommon "github.com/starknet-io/starknet-p2p-specs/p2p/proto/sync/common"
@@ -288,15 +287,57 @@ func eventTx(raw []byte) string {
 	return string(m.GetEvent().GetTransactionHash().GetElements())
 }
 
+// requiredPaths: sub-messages the requesting side (adapters/p2p2core, then the hash functions) reads
+// through: an item lacking one can never be (part of) a verified block. The complete sweep over
+// EVERY message-typed field, required or not, is TestP2PSyncRobust; this list only feeds the peer
+// class `malformed`, whose abstract answer is "never verifies".
+var requiredPaths = map[string]*regexp.Regexp{
+	pHdr: regexp.MustCompile(`^\.header\.(block_hash|parent_hash|state_root|sequencer_address|transactions|events|l1_gas_price_(wei|fri)|l1_data_gas_price_(wei|fri)|l2_gas_price_(wei|fri))$`),
+	pTxs: regexp.MustCompile(`^\.transaction_with_receipt\.(transaction|receipt)$` +
+		`|\.transaction\.transaction_hash$` +
+		`|\.transaction\.\w+\.(common\.)?(sender|signature|max_fee|class_hash|compiled_class_hash|address|entry_point_selector|address_salt|resource_bounds|resource_bounds\.(l1_gas|l2_gas|l1_data_gas)(\.max_amount)?|resource_bounds\.(l1_gas|l2_gas)\.max_price_per_unit)$` +
+		`|\.transaction\.(declare_v\d|deploy_account_v\d|invoke_v\d)\.(common\.)?nonce$` +
+		`|\.transaction\.declare_v3\.common$` +
+		`|\.receipt\.\w+$|\.receipt\.\w+\.common$|\.common\.actual_fee$|\.messages_sent\[\d+\]\.(from_address|to_address)$`),
+	pEvs: regexp.MustCompile(`^\.event\.(transaction_hash|from_address)$`),
+	pCls: regexp.MustCompile(`^\.class\.cairo1\.entry_points$|\[\d+\]\.selector$`),
+	pSd:  regexp.MustCompile(`^\.contract_diff\.(address|values\[\d+\]\.(key|value))$`),
+}
+
+// stripItem clears one required sub-message of a message; "" when it has none.
+func stripItem(part string, raw []byte, r *rand.Rand) ([]byte, string) {
+	m := newResponse(part)
+	if err := proto.Unmarshal(raw, m); err != nil {
+		return nil, ""
+	}
+	var msgs, oneofs []string
+	messagePaths(m.ProtoReflect(), "", &msgs, &oneofs)
+	sort.Strings(msgs)
+	var ok []string
+	for _, p := range msgs {
+		if requiredPaths[part].MatchString(p) {
+			ok = append(ok, p)
+		}
+	}
+	if len(ok) == 0 {
+		return nil, ""
+	}
+	path := ok[r.Intn(len(ok))]
+	if !clearAt(m.ProtoReflect(), path) {
+		return nil, ""
+	}
+	return mustMarshal(m), path
+}
+
 // ------------------------------------------------------------------ the classes
 
 var l2PriceRe = regexp.MustCompile(`\.header\.l2_gas_price`)
 
 // answer computes what peer p (of its class) lets the requesting side read for (part, n).
-// honest is the peer an honest answer is taken from when the class builds on one (p itself for the
-// classes that serve their own chain). spur supplies a foreign item of the same part (for `corrupt`
-// on an empty list). ver is the protocol version of block n (which header fields are hashed).
-func (p *simPeer) answer(part string, n uint64, r *rand.Rand, w *world) feedPlan {
+// want selects among the abstract answers of a class that has more than one (AnsSet in the
+// specification; today only `trunc`: "empty" = cut before the first item, "bad" = some items but not
+// all); "" = any (free-running rounds: TLC resolves the choice when it validates the trace).
+func (p *simPeer) answer(part string, n uint64, r *rand.Rand, w *world, want string) feedPlan {
 	items, fin := p.items(part, n)
 	all := func(it [][]byte) []byte { return joinDelimited(append(append([][]byte{}, it...), fin)) }
 	switch p.class {
@@ -358,7 +399,17 @@ func (p *simPeer) answer(part string, n uint64, r *rand.Rand, w *world) feedPlan
 		if ne == 0 {
 			return feedPlan{end: []string{"eof", "reset"}[r.Intn(2)], variant: "nothing"}
 		}
+		if ne < 2 && part != pHdr { // (a header answer is one item: cut, it is no header at all)
+			// the specification's {Empty, Bad} for a cut answer needs a non-empty proper prefix
+			panic(fmt.Sprintf("harness: the %s answer for block %d has %d item(s); the worlds are built with at least two", part, n, ne))
+		}
 		k := r.Intn(ne) // a proper prefix of what the requesting side reads
+		switch {
+		case want == "empty":
+			k = 0
+		case want == "bad" && ne >= 2:
+			k = 1 + r.Intn(ne-1)
+		}
 		b := joinDelimited(items[:k])
 		variant := fmt.Sprintf("first-%d-of-%d", k, ne)
 		switch r.Intn(3) {
@@ -381,6 +432,26 @@ func (p *simPeer) answer(part string, n uint64, r *rand.Rand, w *world) feedPlan
 		}
 		o, f := p.items(part, m)
 		return feedPlan{chunks: [][]byte{joinDelimited(append(o, f))}, end: "eof", variant: fmt.Sprintf("block-%d-instead", m)}
+
+	case "malformed":
+		// one sub-message the requesting side reads through is left out of one item; an empty list gets
+		// a foreign item first
+		it := append([][]byte{}, items[:essential(part, items)]...)
+		variant := "absent"
+		if len(it) == 0 {
+			if part == pHdr {
+				return feedPlan{chunks: [][]byte{joinDelimited([][]byte{fin})}, end: "eof", variant: "no-header-to-strip"}
+			}
+			it = [][]byte{w.spurious(part, n)}
+			variant = "foreign-item-absent"
+		}
+		for _, i := range r.Perm(len(it)) {
+			if c, path := stripItem(part, it[i], r); c != nil {
+				it[i] = c
+				return feedPlan{chunks: [][]byte{all(it)}, end: "eof", variant: variant + path}
+			}
+		}
+		panic(fmt.Sprintf("harness: no %s item of block %d has a required sub-message to leave out", part, n))
 
 	case "corrupt":
 		if essential(part, items) == 0 {
@@ -433,61 +504,4 @@ func (w *world) spurious(part string, n uint64) []byte {
 		}
 	}
 	panic("no block of A has a non-empty " + part)
-}
-
-// abstractAnswer mirrors Ans of the specification (used to cross-check the generator's
-// expectations and by the free-running monitors).
-func (w *world) abstractAnswer(class, part string, n int) string {
-	serve := func(c *chain, m int) string {
-		if c == nil || m < 0 || m >= c.height() {
-			if part == pHdr {
-				return "none"
-			}
-			return "empty"
-		}
-		if part != pHdr && c.shapes[m].empty(part) {
-			return "empty"
-		}
-		return "blk:" + w.blockID(c.built[m].Block.Hash)
-	}
-	switch class {
-	case "honest", "benign", "flaky":
-		return serve(w.A, n)
-	case "fork":
-		return serve(w.B, n)
-	case "mute", "down":
-		if part == pHdr {
-			return "none"
-		}
-		return "empty"
-	case "trunc":
-		if part == pHdr {
-			return "none"
-		}
-		if strings.HasPrefix(serve(w.A, n), "blk") {
-			return "bad"
-		}
-		return "empty"
-	case "other":
-		m := n + 1
-		if n > 0 {
-			m = n - 1
-		}
-		if part == pHdr {
-			return "none"
-		}
-		if strings.HasPrefix(serve(w.A, m), "blk") {
-			return "bad"
-		}
-		return "empty"
-	case "corrupt":
-		if part == pHdr {
-			if n < w.A.height() {
-				return "bad"
-			}
-			return "none"
-		}
-		return "bad"
-	}
-	return "?"
 }
